@@ -9,7 +9,15 @@ after the connection is gone), with a declared error, a declared fatal error,
 an undeclared error, or never.  Faults: connection loss at a tape-chosen byte
 boundary of either direction (deliver k bytes of what is in flight, then drop),
 drop at any step, clean close and abort by either side, plus the closes AMP
-itself performs after fatal/undeclared errors.
+itself performs after fatal/undeclared errors.  In about a fifth of the runs
+one peer additionally issues, at a tape-chosen operation index and while other
+calls of both peers may be outstanding, a ProtocolSwitchCommand subclass
+(Switch); the other peer's responder accepts it (returns a silent inner
+protocol; amp then locks both sides: no further boxes in either direction) or
+refuses it with a declared error (the caller is unlocked again).  Answers that
+responders produce after the switch are dropped by amp, so the calls that were
+outstanding across the switch stay unanswered and must fail, exactly once, with
+the loss reason when the fault machinery later takes the connection down.
 
 Oracle = wire-level reference model, independent of amp.py: the byte streams
 each peer wrote / was delivered are parsed with an own 20-line box parser.
@@ -27,8 +35,18 @@ and on the responder side: every reply box S wrote answers a question S was
 really asked, at most once per question, with the outcome the responder chose;
 a responder ran exactly once per completely delivered command box; _ask tags
 are never reused.  At the end the link is dropped and no Deferred is pending.
+Protocol switch: the Switch command carries n like every other command, so its
+command box / acknowledgement / refusal are accounted for by the same
+bookkeeping (acknowledgement delivered <=> Deferred fired with {}).  The bytes a
+side is delivered after the box that completed its switch (accepted Switch
+command on the responder side, acknowledgement on the calling side) are not AMP
+traffic and are not interpreted as boxes (on the unchanged code there are none:
+both sides are locked and the inner protocols are silent).  No verdict is given
+on callRemote while a side is locked (the scenario issues none); a call made
+after the loss of a switched connection may fail immediately or raise the
+documented ProtocolSwitched.
 """
-from twisted.internet import defer, error
+from twisted.internet import defer, error, protocol
 from twisted.protocols import amp
 from twisted.python.failure import Failure
 from detsim import net
@@ -45,10 +63,13 @@ COMPONENTS = {"real": ["twisted.protocols.amp.AMP (BoxDispatcher, BinaryBoxProto
                        "twisted.protocols.basic.Int16StringReceiver"],
               "stub": ["TCP transport, segmentation, loss/close/abort (detsim.net.Link)", "responder bodies and callRemote callers (tape-driven)"]}
 RULE = ("run = up to 60 tape-chosen operations (callRemote from either peer, fire a deferred responder result, network event, "
-        "close/abort/drop/cut-at-byte-k) on two connected AMP peers, then a final drop; non-trivial = at least one call was unanswered "
-        "at disconnect AND at least one call was answered AND (a responder answered late or with an error)")
+        "close/abort/drop/cut-at-byte-k) on two connected AMP peers, in 2 of 9 runs one ProtocolSwitchCommand from a tape-chosen peer at a "
+        "tape-chosen operation index (accepted or refused by the responder), then a final drop; non-trivial = at least one call was "
+        "unanswered at disconnect AND at least one call was answered AND (a responder answered late or with an error)")
 ASSUMPTIONS = ["callers attach a callback that handles every result (no unhandledError path from user code)",
-               "responders return well-formed responses; no TLS / protocol switching"]
+               "responders return well-formed responses; no TLS",
+               "at most one protocol switch per run; the inner protocols write nothing; the scenario issues no callRemote on a side "
+               "while amp has it locked for the switch (documented to raise ProtocolSwitched)"]
 
 
 class DeclaredErr(Exception):
@@ -95,6 +116,12 @@ class Nope(amp.Command):          # nobody has a responder for this
     response = [(b"n", amp.Integer())]
 
 
+class Switch(amp.ProtocolSwitchCommand):   # issued at most once per run, see do_switch
+    arguments = [(b"n", amp.Integer())]
+    response = []
+    errors = {DeclaredErr: b"DECL"}
+
+
 CMDS = {"Echo": Echo, "Twice": Twice, "Pad": Pad, "Note": Note, "Nope": Nope}
 
 
@@ -129,6 +156,8 @@ def expected_response(cmd, n, who, fill):
         return {"m": 2 * n}
     if cmd == "Pad":
         return {"n": n, "fill": fill}
+    if cmd == "Switch":
+        return {}
     return None
 
 
@@ -146,6 +175,27 @@ class Call:
         self.n, self.cmd, self.side, self.after_loss, self.fill = n, cmd, side, after_loss, fill
         self.results = []
         self.d = None
+
+
+class Inner(protocol.Protocol):
+    """What both sides switch to: silent, so each byte stream stays a sequence of boxes."""
+
+    def __init__(self, h, name):
+        self.h, self.name = h, name
+
+    def dataReceived(self, data):
+        self.h.inner_bytes[self.name] += len(data)      # observation only, no verdict
+
+    def connectionLost(self, reason):
+        self.h.sim.event("inner-lost", self.name, reason.type.__name__)
+
+
+class InnerFactory(protocol.ClientFactory):
+    def __init__(self, h, name):
+        self.h, self.name = h, name
+
+    def buildProtocol(self, addr):
+        return Inner(self.h, self.name)
 
 
 def make_peer(h, name):
@@ -174,6 +224,10 @@ def make_peer(h, name):
         def note(self, n):
             return self._r("Note", n)
 
+        @Switch.responder
+        def switch(self, n):
+            return h.respond_switch(name, n)
+
     return Peer()
 
 
@@ -188,6 +242,11 @@ class Harness:
         self.decision = {}      # (side, n) -> "ok"|"declared"|"fatal"|"undeclared"|"pending"
         self.late = []          # (side, n, cmd, fill, Deferred)
         self.flags = {"late": 0, "err": 0}
+        # protocol switch (workload control, not oracle): nocall[S] = amp has S locked, the scenario must not callRemote on S
+        self.nocall = {"A": False, "B": False}
+        self.sw_state = 0       # 0 none, 1 asked, 2 acknowledged, 3 refused / failed by loss
+        self.sw_pending = 0     # calls of both sides outstanding when the acknowledgement arrived
+        self.inner_bytes = {"A": 0, "B": 0}
 
     # -- responder bodies (tape-driven)
     def outcome_value(self, side, cmd, n, fill, kind):
@@ -225,6 +284,18 @@ class Harness:
             v.raiseException()
         return v
 
+    def respond_switch(self, side, n):
+        sim = self.sim
+        self.invoked[(side, n)] = self.invoked.get((side, n), 0) + 1
+        kind = sim.draw_weighted([("ok", 5), ("declared", 1)], "switch_resp")
+        sim.event("respond", side, "Switch", n, kind)
+        self.decision[(side, n)] = kind
+        if kind != "ok":
+            self.flags["err"] += 1
+            raise DeclaredErr("declared n=%d" % n)
+        self.nocall[side] = True        # amp writes the acknowledgement, then locks and switches this side
+        return Inner(self, side)
+
     def fire_late(self):
         sim = self.sim
         side, n, cmd, fill, d = self.late.pop(sim.draw_int(0, len(self.late) - 1, "which_late"))
@@ -245,7 +316,9 @@ def run(sim):
     nops = sim.draw_int(8, 60, "nops")
     fault_rate = sim.draw_choice([0, 1, 2], "fault_rate")
     reent = sim.draw_choice([0.0, 0.0, 0.25], "reentrancy")
-    sim.config = {"nops": nops, "fault_rate": fault_rate, "reentrancy": reent}
+    sw_side = sim.draw_choice(["", "", "", "", "", "", "", "A", "B"], "switch_side")
+    sw_at = sim.draw_int(1, max(1, (2 * nops) // 3), "switch_at") if sw_side else -1
+    sim.config = {"nops": nops, "fault_rate": fault_rate, "reentrancy": reent, "switch": sw_side, "switch_at": sw_at}
     h = Harness(sim)
     peers = {"A": make_peer(h, "A"), "B": make_peer(h, "B")}
     link = net.Link(sim, peers["A"], peers["B"])
@@ -256,6 +329,17 @@ def run(sim):
     def on_result(res, call):
         call.results.append(res)
         sim.event("result", call.side, call.n, "F:" + res.type.__name__ if isinstance(res, Failure) else "ok")
+        if call.cmd == "Switch":
+            if isinstance(res, Failure):
+                h.nocall[call.side] = False      # refused, or failed by the loss: amp has unlocked the caller
+                h.sw_state = 3
+                sim.probe("switch_refused" if h.lost[call.side] is None else "switch_lost")
+            else:
+                h.sw_state = 2
+                h.sw_pending = sum(1 for s in "AB" for c in h.calls[s] if c.d is not None and not c.results)
+                sim.probe("switch_acked")
+                if h.sw_pending:
+                    sim.probe("outstanding_across_switch", h.sw_pending)
         if reent and depth[0] < 2 and sim.draw_bool(reent, "reenter"):
             depth[0] += 1
             sim.probe("reentrant_call")
@@ -265,7 +349,13 @@ def run(sim):
                 depth[0] -= 1
         return None
 
+    def can_call(side):
+        return not (h.nocall[side] and h.lost[side] is None)
+
     def do_call(side):
+        if not can_call(side):
+            sim.probe("call_blocked_by_switch")     # only reachable re-entrantly from a result callback
+            return
         cmd = sim.draw_weighted([("Echo", 4), ("Twice", 3), ("Pad", 2), ("Note", 2), ("Nope", 1)], "cmd")
         n = h.next_n
         h.next_n += 1
@@ -280,7 +370,14 @@ def run(sim):
         h.byn[n] = c
         sim.event("call", side, cmd, n, "after-loss" if after_loss else "")
         with sim.guard("callRemote-raised", cmd):
-            d = peers[side].callRemote(CMDS[cmd], **kw)
+            try:
+                d = peers[side].callRemote(CMDS[cmd], **kw)
+            except amp.ProtocolSwitched:
+                # documented for a switched connection; after its loss either this or an immediately failed Deferred
+                if not (after_loss and h.nocall[side]):
+                    raise
+                sim.probe("call_after_loss_raised_switched")
+                return
         if cmd == "Note":
             sim.check("no-answer-returns-none", d is None, "Note", "callRemote returned a %s" % type(d).__name__)
             return
@@ -292,9 +389,33 @@ def run(sim):
             sim.check("after-loss-fails-immediately", len(c.results) == 1 and isinstance(c.results[0], Failure), cmd,
                       "call issued after connectionLost: results=%s" % show(c.results))
 
+    def do_switch(side):
+        n = h.next_n
+        h.next_n += 1
+        c = Call(n, "Switch", side, False, None)
+        h.calls[side].append(c)
+        h.byn[n] = c
+        h.sw_state = 1
+        h.nocall[side] = True       # amp locks the caller until the switch is refused
+        sim.event("call", side, "Switch", n, "")
+        sim.probe("switch_issued")
+        with sim.guard("callRemote-raised", "Switch"):
+            d = peers[side].callRemote(Switch, InnerFactory(h, side), n=n)
+        sim.check("returns-deferred", isinstance(d, defer.Deferred), "Switch", "callRemote returned a %s" % type(d).__name__)
+        c.d = d
+        d.addBoth(on_result, c)
+
+    def amp_part(s, boxes, tags):
+        """The boxes delivered to s up to and including the one that completed s's protocol switch."""
+        for i, b in enumerate(boxes):
+            if b.get(b"_command") == b"Switch" and h.decision.get((s, int(b[b"n"]))) == "ok":
+                return boxes[:i + 1]
+            if b.get(b"_answer") in tags and h.byn[tags[b[b"_answer"]]].cmd == "Switch":
+                return boxes[:i + 1]
+        return boxes
+
     def check_all():
         written = {s: parse_boxes(trans[s].written) for s in "AB"}
-        delivered = {s: parse_boxes(link.delivered[s]) for s in "AB"}
         tag2n = {}
         for s in "AB":
             m = {}
@@ -303,6 +424,7 @@ def run(sim):
                     sim.check("ask-tag-unique", b[b"_ask"] not in m, "tag", "side %s reused tag %r" % (s, b[b"_ask"]))
                     m[b[b"_ask"]] = int(b[b"n"])
             tag2n[s] = m
+        delivered = {s: amp_part(s, parse_boxes(link.delivered[s]), tag2n[s]) for s in "AB"}
         for s, o in (("A", "B"), ("B", "A")):
             # --- responder side: replies S wrote
             replied = set()
@@ -345,10 +467,11 @@ def run(sim):
                 sim.check("fires-at-most-once", len(c.results) <= 1, c.cmd, lambda: "call n=%d results %s" % (c.n, show(c.results)))
                 if c.after_loss:
                     continue
-                r = c.results[0] if c.results else None
+                fired = bool(c.results)
+                r = c.results[0] if fired else None
                 if c.n in answered:
                     b = answered[c.n]
-                    sim.check("answered-call-fired", r is not None, c.cmd, lambda: "n=%d reply box %r delivered but Deferred pending" % (c.n, b))
+                    sim.check("answered-call-fired", fired, c.cmd, lambda: "n=%d reply box %r delivered but Deferred pending" % (c.n, b))
                     if b"_answer" in b:
                         exp = expected_response(c.cmd, c.n, o.encode(), c.fill)
                         sim.check("own-answer", r == exp, c.cmd, lambda: "n=%d got %s expected %r (box %r)" % (c.n, show(r), exp, b))
@@ -367,15 +490,15 @@ def run(sim):
                             ok = False
                         sim.check("own-error", ok, c.cmd, lambda: "n=%d error box %r but result %s" % (c.n, b, show(r)))
                 elif lost is not None:
-                    sim.check("unanswered-fails-at-disconnect", r is not None, c.cmd, "n=%d still pending after connectionLost" % c.n)
+                    sim.check("unanswered-fails-at-disconnect", fired, c.cmd, "n=%d still pending after connectionLost" % c.n)
                     sim.check("fails-with-loss-reason", isinstance(r, Failure) and r.value is lost.value, c.cmd,
                               lambda: "n=%d got %s, connectionLost reason was %s" % (c.n, show(r), type(lost.value).__name__))
                 else:
-                    sim.check("no-early-fire", r is None, c.cmd, lambda: "n=%d fired with %s before any reply was delivered (connection up)" % (c.n, show(r)))
+                    sim.check("no-early-fire", not fired, c.cmd, lambda: "n=%d fired with %s before any reply was delivered (connection up)" % (c.n, show(r)))
 
     # ------------------------------------------------------------------ schedule
     after = 0
-    for _ in range(nops):
+    for opi in range(nops):
         sim.step(400)
         both_lost = h.lost["A"] is not None and h.lost["B"] is not None
         live = not both_lost
@@ -384,14 +507,24 @@ def run(sim):
             if after > 2:
                 break
         ops = [("net", 50 if live and link.enabled() else 0),
-               ("callA", 10), ("callB", 10),
+               ("callA", 10 if can_call("A") else 0), ("callB", 10 if can_call("B") else 0),
                ("late", 10 if h.late else 0),
                ("cutdrop", fault_rate if live else 0),
                ("drop", fault_rate if live else 0),
                ("close", fault_rate if live else 0),
                ("abort", fault_rate if live else 0)]
-        op = sim.draw_weighted(ops, "op")
-        if op == "net":
+        if opi == sw_at:
+            op = "switch"
+        elif not any(w for _o, w in ops):
+            break                                   # both sides locked by the switch and nothing left to happen
+        else:
+            op = sim.draw_weighted(ops, "op")
+        if op == "switch":
+            if h.lost["A"] is None and h.lost["B"] is None:
+                do_switch(sw_side)
+            else:
+                sim.event("switch-skipped")
+        elif op == "net":
             with sim.guard("protocol-raised", "net"):
                 for _k in range(sim.draw_int(1, 4, "nsteps")):
                     if not link.step():
@@ -433,7 +566,7 @@ def run(sim):
                 else:
                     trans[s].abortConnection()
         check_all()
-        sim.state((min(len(h.late), 3), h.lost["A"] is not None, h.lost["B"] is not None,
+        sim.state((min(len(h.late), 3), h.lost["A"] is not None, h.lost["B"] is not None, h.sw_state,
                    min(sum(1 for c in h.calls["A"] if c.d is not None and not c.results), 3),
                    min(sum(1 for c in h.calls["B"] if c.d is not None and not c.results), 3)))
 
@@ -465,6 +598,11 @@ def run(sim):
                 and c.results[0].check(DeclaredErr, FatalErr, amp.UnknownRemoteError))
     if n_err:
         sim.probe("remote_error_result", n_err)
+    if h.sw_state == 2 and h.sw_pending:
+        n_sw = sum(1 for c in allc if c.cmd != "Switch" and c.results and isinstance(c.results[0], Failure)
+                   and c.results[0].check(error.ConnectionLost, error.ConnectionDone, error.ConnectionAborted))
+        if n_sw:
+            sim.probe("failed_at_disconnect_after_switch", n_sw)
     sim.nontrivial = bool(n_lossfail and n_answered and (h.flags["late"] or h.flags["err"]))
 
 
@@ -478,4 +616,18 @@ MUTANTS = [
     "amp.py BinaryBoxProtocol.connectionLost: reason replaced by a fresh ConnectionLost -> caught (fails-with-loss-reason)",
     "amp.py _commandReceived: dispatchCommand called twice -> caught (responder-ran-once)",
     "amp.py _errorReceived: pops the lowest outstanding tag instead of the box's -> caught (no-early-fire)",
+    "seeded/C31-r2-switch-skips-failall (BinaryBoxProtocol.connectionLost returns after notifying the inner protocol, "
+    "stopReceivingBoxes skipped once switched) -> missed before the Switch workload existed; now caught (unanswered-fails-at-disconnect)",
+    "amp.py BinaryBoxProtocol._switchTo: errbacks and clears all outstanding requests with ProtocolSwitched at switch time "
+    "-> caught (no-early-fire)",
+    "amp.py BinaryBoxProtocol.connectionLost: reason replaced by a fresh ConnectionLost only when an inner protocol exists "
+    "-> caught (fails-with-loss-reason)",
+    "amp.py ProtocolSwitchCommand._doCommand.handle: _unlockFromSwitch skipped after a refused switch "
+    "-> caught (callRemote-raised:*:ProtocolSwitched)",
+    "amp.py ProtocolSwitchCommand._doCommand.switchNow: result dropped (Deferred fires with None) -> caught (own-answer:Switch)",
+    "amp.py _SwitchBox._sendTo: responder side not locked (late answers written after the acknowledgement reach the caller's inner "
+    "protocol) -> survives by design: the statement gives no verdict on bytes after the switch; the affected calls are unanswered and "
+    "still fail at disconnect",
+    "re-run with the Switch workload: failAllOutgoing errback skipped, _nextTag % 4, fresh loss reason, dispatchCommand twice, "
+    "_answerReceived without pop -> all still caught with the clauses listed above",
 ]
